@@ -11,4 +11,267 @@ def Piece.covers (p : Piece) (b : Nat) : Prop := p.addr ≤ b ∧ b < p.addr + p
 
 instance (p : Piece) (b : Nat) : Decidable (p.covers b) := inferInstanceAs (Decidable (_ ∧ _))
 
+
+theorem coalesce_cons (p : Piece) (rest : List Piece) :
+    coalesce (p :: rest) =
+      match coalesce rest with
+      | [] => [p]
+      | q :: qs =>
+        if p.addr + p.len = q.addr ∧ p.delta = q.delta then { p with len := p.len + q.len } :: qs
+        else p :: q :: qs := rfl
+
+/-- 7. `coalesce` changes neither the set of bytes nor the tag (`delta`) any byte is covered with -/
+theorem coalesce_preserves_bytes (ps : List Piece) (b : Nat) (δ : Int) :
+    (∃ p ∈ coalesce ps, p.covers b ∧ p.delta = δ) ↔ (∃ p ∈ ps, p.covers b ∧ p.delta = δ) := by
+  induction ps with
+  | nil => exact Iff.rfl
+  | cons p rest ih =>
+    rw [coalesce_cons]
+    cases hc : coalesce rest with
+    | nil =>
+      rw [hc] at ih
+      simp only
+      constructor
+      · intro ⟨q, hq, h⟩
+        exact ⟨q, List.mem_cons.mpr (Or.inl (List.mem_singleton.mp hq)), h⟩
+      · intro ⟨q, hq, h⟩
+        rcases List.mem_cons.mp hq with rfl | hq
+        · exact ⟨q, List.mem_singleton.mpr rfl, h⟩
+        · obtain ⟨x, hx, _⟩ := ih.mpr ⟨q, hq, h⟩
+          cases hx
+    | cons q qs =>
+      rw [hc] at ih
+      simp only
+      split
+      · rename_i hadj
+        constructor
+        · intro ⟨x, hx, hcov, hd⟩
+          rcases List.mem_cons.mp hx with rfl | hx
+          · simp only [Piece.covers] at hcov
+            by_cases hb : b < p.addr + p.len
+            · exact ⟨p, List.mem_cons_self, ⟨hcov.1, hb⟩, hd⟩
+            · obtain ⟨y, hy, hy2⟩ := ih.mp ⟨q, List.mem_cons_self, ⟨by omega, by omega⟩, hadj.2 ▸ hd⟩
+              exact ⟨y, List.mem_cons_of_mem _ hy, hy2⟩
+          · obtain ⟨y, hy, hy2⟩ := ih.mp ⟨x, List.mem_cons_of_mem _ hx, hcov, hd⟩
+            exact ⟨y, List.mem_cons_of_mem _ hy, hy2⟩
+        · intro ⟨x, hx, hcov, hd⟩
+          rcases List.mem_cons.mp hx with rfl | hx
+          · refine ⟨_, List.mem_cons_self, ?_, hd⟩
+            simp only [Piece.covers] at hcov ⊢
+            omega
+          · obtain ⟨y, hy, hycov, hyd⟩ := ih.mpr ⟨x, hx, hcov, hd⟩
+            rcases List.mem_cons.mp hy with rfl | hy
+            · refine ⟨_, List.mem_cons_self, ?_, ?_⟩
+              · simp only [Piece.covers] at hycov ⊢
+                omega
+              · simp only; rw [hadj.2]; exact hyd
+            · exact ⟨y, List.mem_cons_of_mem _ hy, hycov, hyd⟩
+      · constructor
+        · intro ⟨x, hx, h⟩
+          rcases List.mem_cons.mp hx with rfl | hx
+          · exact ⟨x, List.mem_cons_self, h⟩
+          · obtain ⟨y, hy, hy2⟩ := ih.mp ⟨x, hx, h⟩
+            exact ⟨y, List.mem_cons_of_mem _ hy, hy2⟩
+        · intro ⟨x, hx, h⟩
+          rcases List.mem_cons.mp hx with rfl | hx
+          · exact ⟨x, List.mem_cons_self, h⟩
+          · obtain ⟨y, hy, hy2⟩ := ih.mpr ⟨x, hx, h⟩
+            exact ⟨y, List.mem_cons_of_mem _ hy, hy2⟩
+
+
+/-! ### arithmetic helpers -/
+
+theorem off_lt (r n s k : Nat) (hr : r < n) (hk : k < s) : r * s + k < n * s := by
+  have h1 : (r + 1) * s ≤ n * s := Nat.mul_le_mul_right s hr
+  have h2 : (r + 1) * s = r * s + s := Nat.succ_mul r s
+  omega
+
+theorem delta_shift (ca aa D : Nat) : ((ca + D : Nat) : Int) - ((aa + D : Nat) : Int) = (ca : Int) - (aa : Int) := by
+  omega
+
+/-! ### `fmAddr` / `canon` along an x-run -/
+
+/-- the tile-dependent part of `fmAddr`: base of the tile plus the row offset -/
+def rowBase (fm : FM) (y : Nat) (inB : Bool) : Nat :=
+  let hSplit := if inB then fm.height1 else fm.height0
+  let lower := y ≥ hSplit
+  let y' := if lower then y - hSplit else y
+  let t := (if inB then 1 else 0) + (if lower then 2 else 0)
+  fm.base.getD t 0 + y' * fm.strideY
+
+theorem fmAddr_eq (fm : FM) (y x c : Nat) :
+    fmAddr fm y x c =
+      if fm.nhcwb16 then
+        rowBase fm y (decide (x ≥ fm.width0)) + (if x ≥ fm.width0 then x - fm.width0 else x) * (16 * fm.elemBytes) +
+          (c / 16) * fm.strideC + (c % 16) * fm.elemBytes
+      else
+        rowBase fm y (decide (x ≥ fm.width0)) + (if x ≥ fm.width0 then x - fm.width0 else x) * fm.strideX +
+          c * fm.elemBytes := by
+  unfold fmAddr rowBase
+  by_cases h : x ≥ fm.width0 <;> simp [h]
+
+/-- inside one tile, stepping `d` elements in x adds `d` strides -/
+theorem tile_x (fm : FM) (xa d s : Nat) (h : xa + d < fm.width0 ∨ fm.width0 ≤ xa) :
+    decide (xa + d ≥ fm.width0) = decide (xa ≥ fm.width0) ∧
+    (if xa + d ≥ fm.width0 then xa + d - fm.width0 else xa + d) * s =
+      (if xa ≥ fm.width0 then xa - fm.width0 else xa) * s + d * s := by
+  by_cases h1 : xa ≥ fm.width0
+  · have h2 : xa + d ≥ fm.width0 := by omega
+    rw [if_pos h1, if_pos h2, ← Nat.add_mul]
+    refine ⟨by simp [h1, h2], ?_⟩
+    congr 1; omega
+  · have h2 : ¬ xa + d ≥ fm.width0 := by omega
+    rw [if_neg h1, if_neg h2, ← Nat.add_mul]
+    exact ⟨by simp [h1, h2], rfl⟩
+
+theorem fmAddr_run_nhwc (fm : FM) (hn : fm.nhcwb16 = false) (y xa d c : Nat)
+    (h : xa + d < fm.width0 ∨ fm.width0 ≤ xa) :
+    fmAddr fm y (xa + d) c = fmAddr fm y xa 0 + (d * fm.strideX + c * fm.elemBytes) := by
+  rw [fmAddr_eq, fmAddr_eq]
+  simp only [hn, Bool.false_eq_true, if_false]
+  obtain ⟨h1, h2⟩ := tile_x fm xa d fm.strideX h
+  rw [h1, h2, Nat.zero_mul]
+  omega
+
+theorem canon_run_nhwc (fm : FM) (hn : fm.nhcwb16 = false) (Y xa d x0 c c0 : Nat) :
+    canon fm Y (xa + d + x0) (c + c0) = canon fm Y (xa + x0) (0 + c0) + (d * fm.strideX + c * fm.elemBytes) := by
+  unfold canon
+  simp only [hn, Bool.false_eq_true, if_false]
+  have e0 : xa + d + x0 = (xa + x0) + d := by omega
+  have e1 := Nat.add_mul (xa + x0) d fm.strideX
+  have e2 := Nat.add_mul c c0 fm.elemBytes
+  rw [e0, Nat.zero_add]
+  omega
+
+theorem fmAddr_run_b16 (fm : FM) (hn : fm.nhcwb16 = true) (y xa d c : Nat)
+    (h : xa + d < fm.width0 ∨ fm.width0 ≤ xa) :
+    fmAddr fm y (xa + d) c =
+      fmAddr fm y xa (16 * (c / 16)) + (d * (16 * fm.elemBytes) + (c % 16) * fm.elemBytes) := by
+  rw [fmAddr_eq, fmAddr_eq]
+  simp only [hn, if_true]
+  obtain ⟨h1, h2⟩ := tile_x fm xa d (16 * fm.elemBytes) h
+  have e1 : 16 * (c / 16) / 16 = c / 16 := by omega
+  have e2 : 16 * (c / 16) % 16 = 0 := by omega
+  rw [h1, h2, e1, e2, Nat.zero_mul]
+  omega
+
+theorem canon_run_b16 (fm : FM) (hn : fm.nhcwb16 = true) (Y xa d x0 c c0 : Nat) (hc0 : c0 % 16 = 0) :
+    canon fm Y (xa + d + x0) (c + c0) =
+      canon fm Y (xa + x0) (16 * (c / 16) + c0) + (d * (16 * fm.elemBytes) + (c % 16) * fm.elemBytes) := by
+  unfold canon
+  simp only [hn, if_true]
+  have e0 : xa + d + x0 = (xa + x0) + d := by omega
+  have e1 : (16 * (c / 16) + c0) / 16 = (c + c0) / 16 := by omega
+  have e2 : (16 * (c / 16) + c0) % 16 = 0 := by omega
+  have e3 : (c + c0) % 16 = c % 16 := by omega
+  have e4 := Nat.add_mul (xa + x0) d (16 * fm.elemBytes)
+  rw [e0, e1, e2, e3, Nat.zero_mul]
+  omega
+
+
+theorem runPieces_covers (fm : FM) (y0 x0 c0 y xa xb x c k : Nat)
+    (hxa : xa ≤ x) (hxb : x < xb) (htile : xb ≤ fm.width0 ∨ fm.width0 ≤ xa)
+    (hc : c < fm.depth) (hk : k < fm.elemBytes) :
+    ∃ p ∈ runPieces fm y0 x0 c0 y xa xb, p.covers (fmAddr fm y x c + k) ∧
+      ((fm.nhcwb16 = true → c0 % 16 = 0) →
+        p.delta = (canon fm (y + y0) (x + x0) (c + c0) : Int) - (fmAddr fm y x c : Int)) := by
+  obtain ⟨d, rfl⟩ : ∃ d, x = xa + d := ⟨x - xa, by omega⟩
+  have ht : xa + d < fm.width0 ∨ fm.width0 ≤ xa := by omega
+  have ht0 : xa + d + 0 < fm.width0 ∨ fm.width0 ≤ xa + d := by omega
+  unfold runPieces
+  rw [if_neg (by omega)]
+  cases hn : fm.nhcwb16 with
+  | false =>
+    simp only [Bool.false_eq_true, if_false]
+    split
+    · rename_i hfull
+      have hA := fmAddr_run_nhwc fm hn y xa d c ht
+      have hC := canon_run_nhwc fm hn (y + y0) xa d x0 c c0
+      refine ⟨_, List.mem_singleton.mpr rfl, ?_, fun _ => ?_⟩
+      · unfold mkPiece Piece.covers; simp only
+        have h1 := off_lt c fm.depth fm.elemBytes k hc hk
+        have h2 := off_lt d (xb - xa) fm.strideX (c * fm.elemBytes + k) (by omega) (by omega)
+        omega
+      · unfold mkPiece; simp only
+        rw [hA, hC]; exact (delta_shift _ _ _).symm
+    · have hA : fmAddr fm y (xa + d) c = fmAddr fm y (xa + d) 0 + (0 * fm.strideX + c * fm.elemBytes) :=
+        fmAddr_run_nhwc fm hn y (xa + d) 0 c ht0
+      have hC : canon fm (y + y0) (xa + d + x0) (c + c0) =
+          canon fm (y + y0) (xa + d + x0) (0 + c0) + (0 * fm.strideX + c * fm.elemBytes) :=
+        canon_run_nhwc fm hn (y + y0) (xa + d) 0 x0 c c0
+      refine ⟨mkPiece fm y0 x0 c0 y (xa + d) 0 (fm.depth * fm.elemBytes),
+        List.mem_map.mpr ⟨d, List.mem_range.mpr (by omega), rfl⟩, ?_, fun _ => ?_⟩
+      · unfold mkPiece Piece.covers; simp only
+        have h1 := off_lt c fm.depth fm.elemBytes k hc hk
+        omega
+      · unfold mkPiece; simp only
+        rw [hA, hC]; exact (delta_shift _ _ _).symm
+  | true =>
+    simp only [if_true]
+    have hcb : c / 16 ∈ List.range (ceilDiv fm.depth 16) := by
+      apply List.mem_range.mpr; unfold ceilDiv; omega
+    by_cases h16 : min 16 (fm.depth - 16 * (c / 16)) = 16
+    · have hA := fmAddr_run_b16 fm hn y xa d c ht
+      refine ⟨mkPiece fm y0 x0 c0 y xa (16 * (c / 16)) ((xb - xa) * 16 * fm.elemBytes),
+        List.mem_flatMap.mpr ⟨c / 16, hcb, ?_⟩, ?_, fun h0 => ?_⟩
+      · rw [if_pos h16]; exact List.mem_singleton.mpr rfl
+      · unfold mkPiece Piece.covers; simp only
+        have h1 := off_lt (d * 16 + c % 16) ((xb - xa) * 16) fm.elemBytes k (by omega) hk
+        have h2 := Nat.add_mul (d * 16) (c % 16) fm.elemBytes
+        have h3 := Nat.mul_assoc d 16 fm.elemBytes
+        omega
+      · have hC := canon_run_b16 fm hn (y + y0) xa d x0 c c0 (h0 trivial)
+        unfold mkPiece; simp only
+        rw [hA, hC]; exact (delta_shift _ _ _).symm
+    · have hA : fmAddr fm y (xa + d) c = fmAddr fm y (xa + d) (16 * (c / 16)) +
+          (0 * (16 * fm.elemBytes) + (c % 16) * fm.elemBytes) := fmAddr_run_b16 fm hn y (xa + d) 0 c ht0
+      refine ⟨mkPiece fm y0 x0 c0 y (xa + d) (16 * (c / 16)) (min 16 (fm.depth - 16 * (c / 16)) * fm.elemBytes),
+        List.mem_flatMap.mpr ⟨c / 16, hcb, ?_⟩, ?_, fun h0 => ?_⟩
+      · rw [if_neg h16]
+        exact List.mem_map.mpr ⟨d, List.mem_range.mpr (by omega), rfl⟩
+      · unfold mkPiece Piece.covers; simp only
+        have h1 := off_lt (c % 16) (min 16 (fm.depth - 16 * (c / 16))) fm.elemBytes k (by omega) hk
+        omega
+      · have hC : canon fm (y + y0) (xa + d + x0) (c + c0) =
+            canon fm (y + y0) (xa + d + x0) (16 * (c / 16) + c0) +
+              (0 * (16 * fm.elemBytes) + (c % 16) * fm.elemBytes) :=
+          canon_run_b16 fm hn (y + y0) (xa + d) 0 x0 c c0 (h0 trivial)
+        unfold mkPiece; simp only
+        rw [hA, hC]; exact (delta_shift _ _ _).symm
+
+
+/-- the un-coalesced piece list of `fmPieces` -/
+def rawPieces (fm : FM) (y0 x0 c0 : Nat) : List Piece :=
+  (List.range fm.height).flatMap fun y =>
+    runPieces fm y0 x0 c0 y 0 (min fm.width fm.width0) ++ runPieces fm y0 x0 c0 y fm.width0 fm.width
+
+theorem fmPieces_eq (fm : FM) (y0 x0 c0 : Nat) : fmPieces fm y0 x0 c0 = coalesce (rawPieces fm y0 x0 c0) := rfl
+
+theorem rawPieces_covers (fm : FM) (y0 x0 c0 y x c k : Nat)
+    (hy : y < fm.height) (hx : x < fm.width) (hc : c < fm.depth) (hk : k < fm.elemBytes) :
+    ∃ p ∈ rawPieces fm y0 x0 c0, p.covers (fmAddr fm y x c + k) ∧
+      ((fm.nhcwb16 = true → c0 % 16 = 0) →
+        p.delta = (canon fm (y + y0) (x + x0) (c + c0) : Int) - (fmAddr fm y x c : Int)) := by
+  unfold rawPieces
+  by_cases hw : x < fm.width0
+  · obtain ⟨p, hp, h⟩ := runPieces_covers fm y0 x0 c0 y 0 (min fm.width fm.width0) x c k
+      (Nat.zero_le _) (by omega) (Or.inl (by omega)) hc hk
+    exact ⟨p, List.mem_flatMap.mpr ⟨y, List.mem_range.mpr hy, List.mem_append_left _ hp⟩, h⟩
+  · obtain ⟨p, hp, h⟩ := runPieces_covers fm y0 x0 c0 y fm.width0 fm.width x c k
+      (by omega) hx (Or.inr (Nat.le_refl _)) hc hk
+    exact ⟨p, List.mem_flatMap.mpr ⟨y, List.mem_range.mpr hy, List.mem_append_right _ hp⟩, h⟩
+
+/-- 8. every byte of every addressed element lies in a piece of `fmPieces`, and that piece is tagged with
+    the element's canonical offset minus its address.  Side condition: for NHCWB16 the channel origin
+    of the box must be brick aligned (`c0 % 16 = 0`); NHWC needs none. -/
+theorem fmPieces_covers (fm : FM) (y0 x0 c0 y x c k : Nat)
+    (hy : y < fm.height) (hx : x < fm.width) (hc : c < fm.depth) (hk : k < fm.elemBytes) :
+    ∃ p ∈ fmPieces fm y0 x0 c0, p.covers (fmAddr fm y x c + k) ∧
+      ((fm.nhcwb16 = true → c0 % 16 = 0) →
+        p.delta = (canon fm (y + y0) (x + x0) (c + c0) : Int) - (fmAddr fm y x c : Int)) := by
+  obtain ⟨p, hp, hcov, hd⟩ := rawPieces_covers fm y0 x0 c0 y x c k hy hx hc hk
+  obtain ⟨q, hq, hqcov, hqd⟩ :=
+    (coalesce_preserves_bytes (rawPieces fm y0 x0 c0) (fmAddr fm y x c + k) p.delta).mpr ⟨p, hp, hcov, rfl⟩
+  exact ⟨q, hq, hqcov, fun h => by rw [hqd]; exact hd h⟩
+
 end VelaVerif.Footprint
